@@ -3,6 +3,7 @@
 mod alloc;
 mod interp;
 mod ops;
+mod probes;
 
 use std::io::{BufRead, Write};
 
@@ -176,6 +177,8 @@ fn main() {
                 }
             }
         }
+        "words" => probes::words(),
+        "policy" => probes::policy(),
         other => {
             eprintln!("unknown mode {}", other);
             std::process::exit(2);
